@@ -7,7 +7,7 @@ from .cg import is_not_self_intervened, make_counterfactual_graph
 from .id_star import id_star
 from .utils import Unidentifiable
 from ..conditional_independencies import are_d_separated
-from ...dsl import Event, Expression, Variable, Zero
+from ...dsl import Event, Expression, Variable, Zero, _variable_sort_key
 from ...graph import NxMixedGraph
 
 __all__ = [
@@ -25,7 +25,11 @@ def get_new_outcomes_and_conditions(
     remaining_conditions, missing_conditions = get_remaining_and_missing_events(
         new_event, conditions
     )
-    new_event_keys = set(new_event) - set(outcomes) - set(conditions)
+    # sorted, so that the order in which the re-associated keys enter the dictionaries (and with it the
+    # condition that line 4 of IDC* exchanges first) does not depend on the iteration order of a set
+    new_event_keys = sorted(
+        set(new_event) - set(outcomes) - set(conditions), key=_variable_sort_key
+    )
     if len(missing_outcomes) > 0 and len(missing_conditions) > 0:
         for outcome in new_event_keys:
             if outcome.get_base() in {missing.get_base() for missing in missing_outcomes}:
